@@ -139,6 +139,8 @@ def build(sm: SourceModel, f: Func) -> SchemeModel:
                 result_list = name
     if printer is None:
         raise AnalysisError(f"{f.key()}: no 'printer' parameter")
+    if result_list is None and values_name is None and not any(isinstance(c, ast.Call) and isinstance(c.func, ast.Name) and c.func.id == printer for c in ast.walk(loop)):
+        raise AnalysisError(f"{f.key()}: the equations are not printed and collected inside the builder's own loop (no printer(...) call, result list or IndexedBase there - emission is delegated to a helper object); no path table is built")
     atoms = {
         f"{x}.state.symbol": "STATE",
         f"{x}.symbol": "DERIV",
